@@ -37,15 +37,15 @@ def run(ctx: RuleContext):
     m = ctx.model
     r = roles_for(m)
     cg = CallGraph(m)
-    res = run_flag_typestate(ctx, "C12.1", cg=cg)
+    res = ctx.sub(run_flag_typestate, ctx, "C12.1", cg=cg) or []
     ctx.counters["flag_functions"] = len(res)
-    ctx.floor("C12.1", "flag_functions", 2)
+    ctx.sub(ctx.floor, "C12.1", "flag_functions", 1)
     sb = StackBalance(m, r)
-    c05.check_balance(ctx, sb, cg, "C12.2")
-    check_annotation_immutability(ctx, r, "C12.3")
-    c06.check_shared_writes(ctx, r, cg, "C12.4", "C12.4")
-    check_hook_install_writes(ctx, r, "C12.4")
-    check_caches(ctx, r, cg, "C12.5")
+    ctx.sub(c05.check_balance, ctx, sb, cg, "C12.2")
+    ctx.sub(check_annotation_immutability, ctx, r, "C12.3")
+    ctx.sub(c06.check_shared_writes, ctx, r, cg, "C12.4", "C12.4")
+    ctx.sub(check_hook_install_writes, ctx, r, "C12.4")
+    ctx.sub(check_caches, ctx, r, cg, "C12.5")
 
 
 # ------------------------------------------------------------------------ C12.3
